@@ -271,6 +271,16 @@ def check_unregister(rep, db, f, inst, style):
                 if eq and rng and locks and locks[0] < rng[0] < erases[0] and any(u > erases[0] for u in unlocks) and not any(locks[0] < u < erases[0] for u in unlocks):
                     manual_ok = True
                     style["removal"] = "ordered"
+            if not manual_ok and ea:
+                # the position as an index: erase(callback_keys.begin() + I) where callback_keys[I] was compared equal to the key
+                is_keys = lambda o: o is not None and "callback_keys" in fmt(o)
+                I = q.erased_index(p, ea[0], is_keys)
+                if I is not None:
+                    conds = q.resolve([q.same_observer_calls(e.a) for e in evs[:erases[0]] if e.kind == "ASSUME"])
+                    acc = [i for i, e in enumerate(evs) if e.kind == "CALL" and q.short(e.a) in ("operator[]", "at") and is_keys(e.c)]
+                    if q.indexed_equal(conds, is_keys, I, key) and acc and locks and locks[0] < acc[0] < erases[0] and any(u > erases[0] for u in unlocks) and not any(locks[0] < u < erases[0] for u in unlocks):
+                        manual_ok = True
+                        style["removal"] = "ordered"
         if len(backend) != 1 or evs[backend[0]].b[0] != key:
             bad = "backend unregistration is not called exactly once with the given key"
         elif manual_ok:
